@@ -381,6 +381,25 @@ func c02Exec(c *vf.Ctx, d *vf.Driver, cs c02Case) {
 		}
 	}
 
+	// MarshalJSON(Parse(x)) ≡ x, model agreeing
+	if !refused && kindOfForm(cs.Form) == "jws-json" {
+		var again []byte
+		var perr error
+		vf.Recover(func() {
+			var m *jws.Message
+			if m, perr = jws.Parse(data); perr == nil {
+				again, perr = m.MarshalJSON()
+			}
+		})
+		if perr != nil || !bytes.Equal(again, data) {
+			fail("property", "c02-remarshal-differs", "MarshalJSON(Parse(x)) differs from x: "+cell, fmt.Sprint(perr, " ", string(again[:min(len(again), 300)])), string(data[:min(len(data), 300)]))
+		} else if res, derr := d.Call("c02.jws.remarshal", []vf.Wire{vf.Bytes(data)}, StdOracle); derr == nil {
+			if mo := vf.AsOutcome(res); mo.Tag != "ok" || !bytes.Equal(mo.Val.Bytes, again) {
+				fail("correspondence", "c02-serialised-remarshal", "model and implementation re-marshal differently: "+cell, string(again[:min(len(again), 300)]), mo.Tag+" "+string(mo.Val.Bytes[:min(len(mo.Val.Bytes), 300)]))
+			}
+			c.Count("remarshal-ok")
+		}
+	}
 	// ---- goat: parse + verify with the verification keys; direct predicate
 	kind := kindOfForm(cs.Form)
 	vcase := c01Case{Kind: kind, Data: data, Configured: true, Allowed: allowed, Finder: finder, Tag: "c02-" + cs.Form}
@@ -723,6 +742,8 @@ func runC02(c *vf.Ctx) {
 		}
 	}
 	c.Set("grid_cells_run", len(cells))
+	het := c02HetGrid(c)
+	c.Set("hetero_messages", len(het))
 	var mu sync.Mutex
 	next := 0
 	c.Parallel(0, true, func(w int, r *vf.Rand, d *vf.Driver) {
@@ -739,8 +760,12 @@ func runC02(c *vf.Ctx) {
 			i := next
 			next++
 			mu.Unlock()
-			if i >= len(cells) {
+			if i >= len(cells)+len(het) {
 				return
+			}
+			if i >= len(cells) {
+				c02ExecHetero(c, d, het[i-len(cells)])
+				continue
 			}
 			c02Exec(c, d, cells[i])
 			if i < 4 {
@@ -751,10 +776,6 @@ func runC02(c *vf.Ctx) {
 }
 
 func replayC02(c *vf.Ctx, data json.RawMessage) {
-	var cs c02Case
-	if err := json.Unmarshal(data, &cs); err != nil {
-		return
-	}
 	d, err := vf.StartDriver()
 	if err != nil {
 		return
@@ -762,7 +783,28 @@ func replayC02(c *vf.Ctx, data json.RawMessage) {
 	defer d.Close()
 	restore := jwt.VerifSetNow(func() time.Time { return c01FixedNow })
 	defer restore()
-	c02Exec(c, d, cs)
+	var probe struct {
+		Shapes string `json:"shapes"`
+		Kind   string `json:"kind"`
+	}
+	json.Unmarshal(data, &probe)
+	switch {
+	case probe.Shapes != "":
+		var hc c02HetCase
+		if json.Unmarshal(data, &hc) == nil {
+			c02ExecHetero(c, d, hc)
+		}
+	case probe.Kind != "": // a C01-style verification case reported from inside a C02 cell
+		var vc c01Case
+		if json.Unmarshal(data, &vc) == nil {
+			c01Exec(c, d, vc)
+		}
+	default:
+		var cs c02Case
+		if json.Unmarshal(data, &cs) == nil {
+			c02Exec(c, d, cs)
+		}
+	}
 }
 
 var _ = ecdsa.Verify
